@@ -119,7 +119,7 @@ def triggers_of(program: dict, facts: dict[str, dict]) -> dict[str, list[str]]:
             hit("D1", sid)
         if op == "mutate" and aggwin and f.get("limit"):
             hit("D2", sid)
-        if f.get("chain", {}).get("sliced0") and op in ("filter", "summarize", "arrange", "group_by", "join", "union", "mutate", "export"):
+        if f.get("chain", {}).get("sliced0") and op in ("filter", "summarize", "arrange", "group_by", "join", "union", "mutate"):
             hit("D4", sid)
         if op == "summarize" and f.get("agg_in_scope"):
             hit("D10", sid)
